@@ -55,11 +55,15 @@ def _tally(c, i):
                 ERR_KINDS[op + ':' + tok] += 1
 
 
+HOOK_LEGEND = {170: 'alloy-rlp LeadingZero rejection', 171: 'alloy-rlp Overflow rejection', 172: 'DER sign byte stripped', 173: 'DER redundant sign byte rejected', 174: 'SCALE compact generic big-integer arm accepted', 175: 'generic arm rejected by the canonicity threshold', 176: 'postgres BIT padding shift', 177: 'postgres NUMERIC out-of-range digit', 178: 'SSZ out-of-range value', 179: 'rlp (parity) list rejected'}
+
+
 def extra_checks(tier, rng, findings):
     """no extra checks; reports the tally of implementation outcome kinds collected during the run"""
     kinds = dict(sorted(ERR_KINDS.items()))
     distinct = sorted(set(k.split(':', 1)[1] for k in kinds if not k.startswith('exh:')))
-    return {'violations': [], 'known': {}, 'coverage': {'impl_outcome_kinds': kinds, 'distinct_error_kinds': distinct}}
+    return {'violations': [], 'known': {}, 'coverage': {'impl_outcome_kinds': kinds, 'distinct_error_kinds': distinct,
+                                                        'hook_legend': {str(k): v for k, v in HOOK_LEGEND.items()}}}
 
 
 def nontrivial(c, i):
